@@ -426,6 +426,10 @@ class Interp:
         if txt in ('true', 'false'): return txt == 'true'
         if txt == '()': return Agg('()', [])
         if txt in frame.generics: return frame.generics[txt]
+        m = re.match(r'^(?:core::num::<impl )?([ui](?:8|16|32|64|128|size))>?::(MAX|MIN|BITS)$', txt)
+        if m:
+            bits = INT_BITS[m.group(1)]; sg = is_signed(m.group(1))
+            return {'MAX': (1 << (bits - 1)) - 1 if sg else (1 << bits) - 1, 'MIN': -(1 << (bits - 1)) if sg else 0, 'BITS': bits}[m.group(2)]
         m = re.match(r'^"(.*)"$', txt)
         if m: return Opaque('str', (m.group(1),))
         if txt.startswith('b"'): return list(eval(txt))
